@@ -217,7 +217,13 @@ func marshalDocSections(secs []DocumentSection) []byte {
 
 func unmarshalDocSections(data []byte, ds []DocumentSection) []DocumentSection {
 	sz, m := binary.Uvarint(data)
+	if m <= 0 {
+		// corrupt or empty input: no sections
+		return ds[:0]
+	}
 	data = data[m:]
+	// every value takes at least one byte: do not trust a larger count
+	sz = min(sz, uint64(len(data)))
 
 	if cap(ds) < int(sz)/2 {
 		ds = make([]DocumentSection, 0, sz/2)
@@ -232,11 +238,17 @@ func unmarshalDocSections(data []byte, ds []DocumentSection) []DocumentSection {
 		var d DocumentSection
 
 		delta, m := binary.Uvarint(data)
+		if m <= 0 {
+			break
+		}
 		last += uint32(delta)
 		data = data[m:]
 		d.Start = last
 
 		delta, m = binary.Uvarint(data)
+		if m <= 0 {
+			break
+		}
 		last += uint32(delta)
 		data = data[m:]
 		d.End = last
@@ -279,7 +291,11 @@ func toSizedDeltas(offsets []uint32) []byte {
 
 func fromSizedDeltas(data []byte, ps []uint32) []uint32 {
 	sz, m := binary.Uvarint(data)
+	if m <= 0 {
+		return ps[:0]
+	}
 	data = data[m:]
+	sz = min(sz, uint64(len(data)))
 
 	if cap(ps) < int(sz) {
 		ps = make([]uint32, 0, sz)
@@ -290,6 +306,9 @@ func fromSizedDeltas(data []byte, ps []uint32) []uint32 {
 	var last uint32
 	for len(data) > 0 {
 		delta, m := binary.Uvarint(data)
+		if m <= 0 {
+			break
+		}
 		offset := last + uint32(delta)
 		last = offset
 		data = data[m:]
@@ -319,7 +338,11 @@ func toSizedDeltas16(offsets []uint16) []byte {
 
 func fromSizedDeltas16(data []byte, ps []uint16) []uint16 {
 	sz, m := binary.Uvarint(data)
+	if m <= 0 {
+		return ps[:0]
+	}
 	data = data[m:]
+	sz = min(sz, uint64(len(data)))
 
 	if cap(ps) < int(sz) {
 		ps = make([]uint16, 0, sz)
@@ -330,6 +353,9 @@ func fromSizedDeltas16(data []byte, ps []uint16) []uint16 {
 	var last uint16
 	for len(data) > 0 {
 		delta, m := binary.Uvarint(data)
+		if m <= 0 {
+			break
+		}
 		offset := last + uint16(delta)
 		last = offset
 		data = data[m:]
@@ -347,6 +373,9 @@ func fromDeltas(data []byte, buf []uint32) []uint32 {
 	var last uint32
 	for len(data) > 0 {
 		delta, m := binary.Uvarint(data)
+		if m <= 0 {
+			break
+		}
 		offset := last + uint32(delta)
 		last = offset
 		data = data[m:]
